@@ -171,6 +171,31 @@ def check(ctx):
         if k != "ok" or type(v) is not int or v != want2:
             ctx.violation("in:" + text2, text2, "the number %d" % want2, "%s %r (%s)" % (k, v, type(v).__name__), "execute(%r)" % text2)
     ctx.cov["displayed"] = shown
+    # ---- values that come out of AGGREGATES and long float chains at the edge of the float range: whatever such an expression
+    # delivers — an overflow error on the reviewed tree — a delivered value is comparable with itself and with 0, coherently
+    edge = ["prod({17.5, 1e308, 0})", "prod({2.5, 1e308, 1e308, 0})", "sum({1.5e308, 1.5e308, -1.5e308})", "mean({1.5e308, 1.5e308})", "prod({1.5e200, 1.5e200, 0.0})",
+            "sum({x * 1.5e308 : x in {1, 1, -1, -1}})", "prod({x : x in {3.5, 1e308, 0}})", "max({1.5e308 * 10, 1})", "median({1.5e308, 1.5e308 * 10})",
+            "prod({1.5e-200, 1.5e-200, 1.5e308, 1.5e308})", "sum({1e308, 1.5}) * 0", "prod({17.5, 1e308}) * 0"]
+    for t in edge:
+        env = R.new_env()
+        r0 = R.execute("p_ = " + t, env=env)
+        if r0["status"] != 0 or r0["escaped"]:
+            ctx.count("edge:" + t, bucket="edge aggregates/rejected")
+            continue
+        ctx.count("edge:" + t, bucket="edge aggregates/a value")
+        got = {}
+        for op in OPS:
+            for other in ("0", "p_"):
+                k, v = R.value("p_ %s %s" % (op, other), env=env)
+                got[(op, other)] = v if k == "ok" else "err"
+        for other in ("0", "p_"):
+            tri = [got[("<", other)], got[("==", other)], got[(">", other)]]
+            ok = all(x in (0, 1) and not isinstance(x, bool) for x in tri) and sum(tri) == 1 and got[("!=", other)] == 1 - got[("==", other)] \
+                and got[("<=", other)] == max(got[("<", other)], got[("==", other)]) and got[(">=", other)] == max(got[(">", other)], got[("==", other)])
+            if not ok or (other == "p_" and got[("==", "p_")] != 1):
+                ctx.violation("cmp-edge:" + t, "p_ = %s; p_ < %s; p_ == %s; p_ > %s" % (t, other, other, other), "exactly one of <, ==, > is 1 (and == with itself)",
+                              "< %s, == %s, > %s, <= %s, >= %s, != %s" % tuple(got[(o, other)] for o in ("<", "==", ">", "<=", ">=", "!=")), "one EvalEnvironment")
+                break
     # ---- one comparison written once, evaluated over elements of varying kinds (comprehension body): per element as alone
     import callsite_common
     callsite_common.run(ctx, ["x %s y" % o for o in OPS] + ["y %s x" % o for o in OPS] + ["x in {y, 2}", "y in {x}"],
